@@ -115,6 +115,8 @@ Lemma BS_kinds x x' s s' : BS x s -> (forall rq, Sreq s rq -> kind_of s (sq_rule
   (forall rq, Sreq s' rq -> Sreq s rq \/
      forall j d, (j < sq_index rq)%nat -> nth_error (deps s' (sq_rule rq)) j = Some d ->
        curk s' (d_key d) /\ (d_order d = false -> cAt s' (d_key d) <= bAt s' (sq_rule rq))) ->
+  (forall rq, Sreq s' rq -> Sreq s rq \/
+     forall i d, sq_input rq = Some i -> nth_error (deps s' (sq_rule rq)) (sq_index rq) = Some d -> sq_order rq = d_order d) ->
   (forall k, kind_of s' k = KScanning ->
      (kind_of s k = KScanning /\ (ri_deferred (rinfo_of s k) <> [] \/ ri_paused (rinfo_of s k) <> [] \/ x = Some k ->
                                  ri_deferred (rinfo_of s' k) <> [] \/ ri_paused (rinfo_of s' k) <> [] \/ x' = Some k)) \/
@@ -124,7 +126,7 @@ Lemma BS_kinds x x' s s' : BS x s -> (forall rq, Sreq s rq -> kind_of s (sq_rule
      ((exists v, stored s' k = Some v /\ Some v = cvK k /\ concl s' k v) /\ (forall d, In d (deps s' k) -> curk s' (d_key d)) /\ bAt s' k <> 0 /\ pending_for s' k)) ->
   BS x' s'.
 Proof.
-  intros [S1 S2 S3] Hss Hst Hca Hdp Hc1 Hbs Hsr Hsc Hdn. constructor.
+  intros [S1 S2 S3 S4] Hss Hst Hca Hdp Hc1 Hbs Hsr Hsi Hsc Hdn. constructor.
   - intros rq Hrq j d Hj Hn. destruct (Hsr rq Hrq) as [Hold|Hnew]; [|now apply (Hnew j d)].
     rewrite Hdp in Hn. destruct (S1 rq Hold j d Hj Hn) as [Hc Hf]. split; [now apply Hc1|]. rewrite Hca, (Hbs _ (Hss rq Hold)). exact Hf.
   - intros k Hk. destruct (Hsc k Hk) as [(Hk0 & Hrec)|H]; [|exact H].
@@ -135,6 +137,7 @@ Proof.
     + intros d. rewrite Hdp. intros Hin. now apply Hc1, Hd.
     + now rewrite Eb.
     + now apply Hp.
+  - intros rq Hrq i d Hi. destruct (Hsi rq Hrq) as [Hold|Hnew]; [rewrite Hdp; now apply (S4 rq Hold i d)|now apply (Hnew i d)].
 Qed.
 
 Hypothesis Hrank : wf_rank rules rank.
@@ -226,7 +229,7 @@ Proof.
 Qed.
 
 Lemma BS_weaken x s : BS None s -> BS x s.
-Proof. intros [S1 S2 S3]. constructor; auto. intros k Hk. destruct (S2 k Hk) as (B1 & B2 & [B3|[B3|B3]]); [auto|auto|discriminate]. Qed.
+Proof. intros [S1 S2 S3 S4]. constructor; auto. intros k Hk. destruct (S2 k Hk) as (B1 & B2 & [B3|[B3|B3]]); [auto|auto|discriminate]. Qed.
 
 Lemma unscanned_not_curk s k : is_scanned s k = false -> kind_of s k <> KScanning ->
   ~ curk s k /\ idle s k /\ (kind_of s k = KIncomplete \/ kind_of s k = KComplete).
@@ -289,6 +292,10 @@ Proof.
     + intros k' H. now apply Hcu.
     + intros rq [H|[(k0 & H)|(t0 & z & Hz & H)]].
       * apply Hts in H. destruct H as [[_ ->]|H]; [right; intros j d Hj; cbn [sq_index] in Hj; lia|left; now left].
+      * left. right. left. exists k0. now rewrite <- (proj1 (proj2 (HL k0))).
+      * left. right. right. exists t0, z. now rewrite <- Htask.
+    + intros rq [H|[(k0 & H)|(t0 & z & Hz & H)]].
+      * apply Hts in H. destruct H as [[_ ->]|H]; [right; intros i d Hsi; discriminate|left; now left].
       * left. right. left. exists k0. now rewrite <- (proj1 (proj2 (HL k0))).
       * left. right. right. exists t0, z. now rewrite <- Htask.
     + intros k'. rewrite HK. destruct (N.eqb k' k) eqn:E.
